@@ -402,11 +402,6 @@ def check_case(text, ks, strict=False, expects=None):
                 info['rt_timeout'] = info.get('rt_timeout', 0) + 1
                 continue
             rep = crash_report(data, 'rt %d %d 9' % (k, NOCC))
-            if re.search(r'scale\.c:\d+:\d+: runtime error: signed integer overflow', rep):
-                # undefined arithmetic inside the Hijri conversion formulas (a pure function, C15's matter): it does
-                # not corrupt memory; set aside like the engine crashes of the control run
-                info['engine_arith_overflow'] = info.get('engine_arith_overflow', 0) + 1
-                continue
             top = re.findall(r'#0 0x[0-9a-f]+ in (\S+) (\S+)', rep)
             V.append(('R-CRASHFREE serialise-crash', 'rt %d: %s%s' % (k, last, (' in %s %s' % top[0]) if top else ''), k))
             continue
